@@ -391,10 +391,112 @@ func c13RandomCase(r *mon.Run, idx int64) (listCase, mon.Case) {
 	return lc, mon.Case{Gen: "list-random", Seed: r.Seed, Index: idx}
 }
 
+// c13GroupNull: (*Group).Null() and (*File).Null() add a null item *and return it*: it renders nothing while it is
+// empty, and whatever is appended to the returned statement later (the placeholder idiom, or plain chaining) renders
+// at that position.
+func c13GroupNull(r *mon.Run) {
+	type gcons struct {
+		name string
+		fn   func(cb func(*jen.Group)) *jen.Statement
+		ref  func(items ...jen.Code) *jen.Statement
+	}
+	cons := []gcons{
+		{"BlockFunc", jen.BlockFunc, jen.Block},
+		{"CallFunc", func(cb func(*jen.Group)) *jen.Statement { return jen.Id("f").CallFunc(cb) }, func(i ...jen.Code) *jen.Statement { return jen.Id("f").Call(i...) }},
+		{"ListFunc", jen.ListFunc, jen.List}, {"ParamsFunc", jen.ParamsFunc, jen.Params}, {"ValuesFunc", jen.ValuesFunc, jen.Values},
+		{"IndexFunc", jen.IndexFunc, jen.Index}, {"DefsFunc", jen.DefsFunc, jen.Defs}, {"CaseFunc", jen.CaseFunc, jen.Case},
+		{"ReturnFunc", jen.ReturnFunc, jen.Return}, {"StructFunc", jen.StructFunc, jen.Struct}, {"InterfaceFunc", jen.InterfaceFunc, jen.Interface},
+		{"UnionFunc", jen.UnionFunc, jen.Union}, {"AppendFunc", jen.AppendFunc, jen.Append}, {"SwitchFunc", jen.SwitchFunc, jen.Switch},
+		{"CustomFunc", func(cb func(*jen.Group)) *jen.Statement {
+			return jen.CustomFunc(jen.Options{Open: "<", Close: ">", Separator: ",", Multi: true}, cb)
+		}, func(i ...jen.Code) *jen.Statement {
+			return jen.Custom(jen.Options{Open: "<", Close: ">", Separator: ",", Multi: true}, i...)
+		}},
+	}
+	id := func(n string) *jen.Statement { return jen.Id(n) }
+	for ci, k := range cons {
+		c := mon.Case{Gen: "group-null", Seed: r.Seed, Index: int64(ci)}
+		for pos := 0; pos <= 2; pos++ { // the placeholder before, between and after two real items
+			for _, chained := range []bool{false, true} {
+				var ph *jen.Statement
+				st := k.fn(func(g *jen.Group) {
+					for i := 0; i <= 2; i++ {
+						if i == pos {
+							if chained {
+								g.Null().Id("lateq")
+							} else {
+								ph = g.Null()
+							}
+						}
+						if i < 2 {
+							g.Id(fmt.Sprintf("x%dq", i+1))
+						}
+					}
+				})
+				var with, without []jen.Code
+				for i := 0; i <= 2; i++ {
+					if i == pos {
+						with = append(with, id("lateq"))
+					}
+					if i < 2 {
+						with = append(with, id(fmt.Sprintf("x%dq", i+1)))
+						without = append(without, id(fmt.Sprintf("x%dq", i+1)))
+					}
+				}
+				wantWith, _ := rawOf(k.ref(with...))
+				wantWithout, _ := rawOf(k.ref(without...))
+				if !chained {
+					if got, fail := rawOf(st); fail != "" || got != wantWithout {
+						r.Violate("null-item-changes-output", c, "%s with g.Null() at position %d renders (%s)\n%s\nwant the list without it\n%s", k.name, pos, fail, got, wantWithout)
+					}
+					ph.Id("lateq")
+				}
+				if got, fail := rawOf(st); fail != "" || got != wantWith {
+					r.Violate("stale-nullness", c, "%s: the statement returned by g.Null() at position %d (chained=%v) was given a token; the construct renders (%s)\n%s\nwant\n%s", k.name, pos, chained, fail, got, wantWith)
+				}
+				r.Count("group_null_placeholder_cases", 1)
+			}
+		}
+		r.Eval("group-null|"+k.name, true)
+	}
+	// the same on a File
+	c := mon.Case{Gen: "group-null", Seed: r.Seed, Index: 99}
+	f := jen.NewFile("p")
+	f.NoFormat = true
+	f.Var().Id("x1q").Int()
+	ph := f.Null()
+	f.Null().Var().Id("chainq").Int()
+	f.Var().Id("x2q").Int()
+	before, _ := renderFile(f)
+	ph.Var().Id("lateq").Int()
+	after, _ := renderFile(f)
+	g := jen.NewFile("p")
+	g.NoFormat = true
+	g.Var().Id("x1q").Int()
+	g.Var().Id("chainq").Int()
+	g.Var().Id("x2q").Int()
+	wantBefore, _ := renderFile(g)
+	h := jen.NewFile("p")
+	h.NoFormat = true
+	h.Var().Id("x1q").Int()
+	h.Var().Id("lateq").Int()
+	h.Var().Id("chainq").Int()
+	h.Var().Id("x2q").Int()
+	wantAfter, _ := renderFile(h)
+	if string(before) != string(wantBefore) {
+		r.Violate("null-item-changes-output", c, "File with f.Null() items renders\n%s\nwant\n%s", before, wantBefore)
+	}
+	if string(after) != string(wantAfter) {
+		r.Violate("stale-nullness", c, "File: the statement returned by f.Null() was given tokens; the File renders\n%s\nwant\n%s", after, wantAfter)
+	}
+	r.Eval("group-null|File", true)
+}
+
 func runC13(r *mon.Run) {
-	r.SetRule("part 1: every list construct (35: Call, Params, List, Values, Index, Block, Defs, Case, Types, Union, Return, If/For/Switch (+Block), Interface, Struct, built-ins, Add, Custom x5, BlockFunc, CallFunc) x arity 0-5 x every non-empty subset of gaps holding a null-ish item (10 kinds, rotating) — complete; plus random arity 0-12, multiplicities and Empty() positions; judged on the raw (NoFormat) rendering: bytes equal to the list without the nulls, items x1..xn present in order, Empty() separated like a real item. part 2: null injection at every list of real programs (corpus), judged against the source AST. non-trivial = at least one null-ish item injected; distinct by case text")
+	r.SetRule("part 1: every list construct (35: Call, Params, List, Values, Index, Block, Defs, Case, Types, Union, Return, If/For/Switch (+Block), Interface, Struct, built-ins, Add, Custom x5, BlockFunc, CallFunc) x arity 0-5 x every non-empty subset of gaps holding a null-ish item (10 kinds, rotating) — complete; plus random arity 0-12, multiplicities and Empty() positions; judged on the raw (NoFormat) rendering: bytes equal to the list without the nulls, items x1..xn present in order, Empty() separated like a real item. part 1b: the statement returned by (*Group).Null() in 15 …Func constructs and by (*File).Null(), before/between/after real items, empty and then given a token (placeholder idiom and chaining). part 2: null injection at every list of real programs (corpus), judged against the source AST. non-trivial = at least one null-ish item injected; distinct by case text")
 	r.Assume("an empty Types() is not used as a null item (the statement does not list it); nulls are not injected next to a Dict inside Values (contract panic)")
 	c13NegControls(r)
+	c13GroupNull(r)
 	n := c13Exhaustive(r)
 	r.Put("exhaustive_subdomain", fmt.Sprintf("%d cases: 35 constructs x arity 0-5 x all non-empty subsets of gaps (complete)", n))
 	m := r.Pick(6000, 1000000)
@@ -412,6 +514,8 @@ func replayC13(r *mon.Run, c mon.Case) {
 	case "list-random":
 		lc, cc := c13RandomCase(r, c.Index)
 		c13ListCase(r, lc, cc)
+	case "group-null":
+		c13GroupNull(r)
 	case "list-exhaustive":
 		var lc listCase
 		if err := jsonUnmarshal(c.Extra, &lc); err == nil {
